@@ -180,7 +180,7 @@ func (e *exec) Body() {
 		key = sx.Key
 	}
 	for _, c := range conns {
-		frames, prob := sx.ParseWire(c.Written)
+		frames, prob := sx.ParseConn(c)
 		if prob != "" {
 			e.problems = append(e.problems, c.Name+": "+prob)
 			continue
